@@ -88,7 +88,7 @@ func Run(mod *ir.Module, fn *ir.Function) {
 	// only let-bindings (zero locals, zero outputs) retain all dead
 	// instructions in the DXIL body, diverging from DXC which runs
 	// LLVM DCE and strips them.
-	fn.Body = sweepBlock(fn, fn.Body, deadLocals, live)
+	fn.Body = sweepBlock(mod, fn, fn.Body, deadLocals, live)
 }
 
 // markLive performs the mark phase. It walks the statement tree and
@@ -597,12 +597,13 @@ func findDeadLocals(fn *ir.Function, live []bool) map[uint32]bool {
 
 // sweepBlock walks a block and returns a new block with dead
 // statements removed and emit ranges adjusted.
-func sweepBlock(fn *ir.Function, block ir.Block, deadLocals map[uint32]bool, live []bool) ir.Block {
+func sweepBlock(mod *ir.Module, fn *ir.Function, block ir.Block, deadLocals map[uint32]bool, live []bool) ir.Block {
 	localPtrs := buildLocalPtrMap(fn)
-	return doSweepBlock(fn, block, deadLocals, live, localPtrs)
+	return doSweepBlock(mod, fn, block, deadLocals, live, localPtrs)
 }
 
 func doSweepBlock(
+	mod *ir.Module,
 	fn *ir.Function,
 	block ir.Block,
 	deadLocals map[uint32]bool,
@@ -631,28 +632,30 @@ func doSweepBlock(
 			result = append(result, ir.Statement{Kind: ir.StmtEmit{Range: newRange}})
 
 		case ir.StmtIf:
-			if swept, keep := sweepIf(fn, sk, deadLocals, live, localPtrs); keep {
+			if swept, keep := sweepIf(mod, fn, sk, deadLocals, live, localPtrs); keep {
 				result = append(result, swept)
 			}
 
 		case ir.StmtLoop:
-			if swept, keep := sweepLoop(fn, sk, deadLocals, live, localPtrs); keep {
+			if swept, keep := sweepLoop(mod, fn, sk, deadLocals, live, localPtrs); keep {
 				result = append(result, swept)
 			}
 
 		case ir.StmtSwitch:
-			if swept, keep := sweepSwitch(fn, sk, deadLocals, live, localPtrs); keep {
+			if swept, keep := sweepSwitch(mod, fn, sk, deadLocals, live, localPtrs); keep {
 				result = append(result, swept)
 			}
 
 		case ir.StmtCall:
-			if sweepCallIsLive(sk, live) {
+			// A callee with side effects is kept even when it takes no
+			// arguments and returns nothing (no expression to be live).
+			if sweepCallIsLive(sk, live) || calleeHasSideEffects(mod, sk.Function) {
 				result = append(result, stmt)
 			}
 
 		case ir.StmtBlock:
 			result = append(result, ir.Statement{Kind: ir.StmtBlock{
-				Block: doSweepBlock(fn, sk.Block, deadLocals, live, localPtrs),
+				Block: doSweepBlock(mod, fn, sk.Block, deadLocals, live, localPtrs),
 			}})
 
 		default:
@@ -669,14 +672,15 @@ func doSweepBlock(
 // if-statement when both branches are empty after sweeping AND the
 // condition expression has no side effects (DXC's ADCE does the same).
 func sweepIf(
+	mod *ir.Module,
 	fn *ir.Function,
 	sk ir.StmtIf,
 	deadLocals map[uint32]bool,
 	live []bool,
 	localPtrs map[ir.ExpressionHandle]uint32,
 ) (ir.Statement, bool) {
-	accept := doSweepBlock(fn, sk.Accept, deadLocals, live, localPtrs)
-	reject := doSweepBlock(fn, sk.Reject, deadLocals, live, localPtrs)
+	accept := doSweepBlock(mod, fn, sk.Accept, deadLocals, live, localPtrs)
+	reject := doSweepBlock(mod, fn, sk.Reject, deadLocals, live, localPtrs)
 	if len(accept) == 0 && len(reject) == 0 && !live[sk.Condition] {
 		return ir.Statement{}, false
 	}
@@ -692,14 +696,15 @@ func sweepIf(
 // has no observable side effects after sweeping — this handles the
 // synthetic wrapper loops from the early-return inline pattern.
 func sweepLoop(
+	mod *ir.Module,
 	fn *ir.Function,
 	sk ir.StmtLoop,
 	deadLocals map[uint32]bool,
 	live []bool,
 	localPtrs map[ir.ExpressionHandle]uint32,
 ) (ir.Statement, bool) {
-	body := doSweepBlock(fn, sk.Body, deadLocals, live, localPtrs)
-	cont := doSweepBlock(fn, sk.Continuing, deadLocals, live, localPtrs)
+	body := doSweepBlock(mod, fn, sk.Body, deadLocals, live, localPtrs)
+	cont := doSweepBlock(mod, fn, sk.Continuing, deadLocals, live, localPtrs)
 	if loopBodyIsDead(body, cont, sk.BreakIf, live) {
 		return ir.Statement{}, false
 	}
@@ -785,6 +790,7 @@ func blockOnlyHasTerminators(block ir.Block) bool {
 // sweepSwitch sweeps a StmtSwitch and returns the swept statement.
 // Returns (stmt, true) if the switch survives, (_, false) if eliminated.
 func sweepSwitch(
+	mod *ir.Module,
 	fn *ir.Function,
 	sk ir.StmtSwitch,
 	deadLocals map[uint32]bool,
@@ -796,7 +802,7 @@ func sweepSwitch(
 	for ci := range sk.Cases {
 		newCases[ci] = ir.SwitchCase{
 			Value:       sk.Cases[ci].Value,
-			Body:        doSweepBlock(fn, sk.Cases[ci].Body, deadLocals, live, localPtrs),
+			Body:        doSweepBlock(mod, fn, sk.Cases[ci].Body, deadLocals, live, localPtrs),
 			FallThrough: sk.Cases[ci].FallThrough,
 		}
 		if len(newCases[ci].Body) > 0 {
